@@ -47,6 +47,16 @@ type Env struct {
 	// verified whose reference has not left its local variables yet - no callee
 	// can reach them, so their contents survive a whole-heap havoc
 	private map[string]privArr
+	// late: locals of nested blocks that are bound on some of the joined paths
+	// only. The code being verified cannot name them any more (their scope has
+	// ended), but contract clauses over locals can: `defined(x)` is the
+	// condition under which the path went through x's declaration.
+	late map[types.Object]lateVar
+}
+
+type lateVar struct {
+	val  Value
+	defd Term
 }
 
 type privArr struct {
@@ -66,6 +76,12 @@ func (e *Env) clone() *Env {
 	}
 	n.loopIdx = append([]Term(nil), e.loopIdx...)
 	n.visited = append([]Term(nil), e.visited...)
+	if len(e.late) > 0 {
+		n.late = make(map[types.Object]lateVar, len(e.late))
+		for k, v := range e.late {
+			n.late[k] = v
+		}
+	}
 	if len(e.private) > 0 {
 		n.private = make(map[string]privArr, len(e.private))
 		for k, v := range e.private {
@@ -227,6 +243,56 @@ func (fv *FV) mergeEnvs(envs []*Env) *Env {
 		}
 		return n
 	}
+	// variables bound on some of the joined paths only: kept aside for the
+	// contract clauses over locals
+	{
+		cand := map[types.Object]bool{}
+		for _, e := range live {
+			for o := range e.vars {
+				cand[o] = true
+			}
+			for o := range e.late {
+				cand[o] = true
+			}
+		}
+		var late []types.Object
+		for o := range cand {
+			inAll := true
+			for _, e := range live {
+				if _, ok := e.vars[o]; !ok {
+					inAll = false
+					break
+				}
+			}
+			if !inAll {
+				late = append(late, o)
+			}
+		}
+		sort.Slice(late, func(i, j int) bool { return late[i].Pos() < late[j].Pos() })
+		m.late = nil
+		for _, o := range late {
+			var vals []Value
+			var conds, defs []Term
+			for i, e := range live {
+				if v, ok := e.vars[o]; ok {
+					vals, conds, defs = append(vals, v), append(conds, pcs[i]), append(defs, pcs[i])
+				} else if lv, ok := e.late[o]; ok {
+					vals, conds, defs = append(vals, lv.val), append(conds, pcs[i]), append(defs, and(pcs[i], lv.defd))
+				}
+			}
+			if len(vals) == 0 {
+				continue
+			}
+			nv, ok := fv.joinValues(o.Name(), vals, conds)
+			if !ok {
+				continue
+			}
+			if m.late == nil {
+				m.late = map[types.Object]lateVar{}
+			}
+			m.late[o] = lateVar{val: nv, defd: fv.namePC(or(defs...))}
+		}
+	}
 	// variables present in all live envs
 	var objs []types.Object
 	for o := range live[0].vars {
@@ -326,6 +392,53 @@ func (fv *FV) mergeEnvs(envs []*Env) *Env {
 	m.alloc = mergeTerm("alloc", al)
 	// loop ghost state: keep the first env's (they agree within a loop body)
 	return m
+}
+
+// joinValues: a value equal to vals[i] under conds[i] (unconstrained when no
+// condition holds). Scalars, slices and maps only.
+func (fv *FV) joinValues(name string, vals []Value, conds []Term) (Value, bool) {
+	k := vals[0].K
+	for _, v := range vals {
+		if v.K != k {
+			return Value{}, false
+		}
+	}
+	if k != kScalar && k != kSlice && k != kMap {
+		return Value{}, false
+	}
+	if len(vals) == 1 {
+		return vals[0], true
+	}
+	join := func(part string, get func(Value) Term) Term {
+		first := get(vals[0])
+		if first.S == "" {
+			return first
+		}
+		same := true
+		for _, v := range vals[1:] {
+			if get(v).S != first.S {
+				same = false
+			}
+		}
+		if same {
+			return first
+		}
+		n := fv.s.freshConst(name+part, first.Sort)
+		for i, v := range vals {
+			t := get(v)
+			if t.S == "" || t.Sort != first.Sort {
+				continue
+			}
+			fv.s.assume(implies(conds[i], eq(n, t)))
+		}
+		return n
+	}
+	nv := vals[0]
+	nv.T = join("", func(v Value) Term { return v.T })
+	nv.Off = join(".off", func(v Value) Term { return v.Off })
+	nv.Len = join(".len", func(v Value) Term { return v.Len })
+	nv.Cap = join(".cap", func(v Value) Term { return v.Cap })
+	return nv, true
 }
 
 func sortedBoolKeys(m map[string]bool) []string {
